@@ -195,6 +195,25 @@ CHECKS = {
              "built offline. Process restarts only (no machine crash of the vendored engine copy). The bare wrapper is compared only in the way the store uses it (read_all straight after open). "
              "No repair committed: making recovery non-consuming needs a different read API use in octopii, which the baseline suite does not build.",
              tech="Lean 4 proof (inductive invariant over operation histories: the logs replay to the acknowledged state; counterexample by kernel evaluation) + build-time source slicing + differential correspondence + oracle", ref="§6 C21"),
+ "C22": dict(text="Partial: the property is FALSE of the code (open findings sealedCountStale, readerLagsMetadata; the C23 window feeds the first). Model (Model/Plane.lean): small-step model of the data plane - "
+             "per node applied metadata (Meta.applyCmd, the C18 model) from one ordered command log, lease set, per-key write locks, in-memory counters, one FIFO queue with a consumed count per (node, wal key), "
+             "per-node read cursors; PUT / GET / monitor tasks advance from one named point to the next (7 cfg(walrus_verif) hooks + await-apply + tick); scheduler actions step/apply/sync. Theorem: "
+             "C22_counterexample (kernel evaluation): two concurrent PUTs with threshold 1 - both acknowledged, the topic read until EMPTY, one acknowledged payload never returned, segment 2 sealed with a stale "
+             "count; replayed on the real code on every run. Correspondence: bucket.rs + controller/{mod,internal,types}.rs + monitor.rs + metadata.rs + rpc.rs compiled from /repo on the REAL engine under a "
+             "deterministic scheduler, ~550 schedules per quick run (6000 thorough: sequential / concurrent / with monitor; 1-3 nodes; thresholds 1-4; lagging applies) compared line by line with the model incl. "
+             "state dumps; oracle: exactly-once, EMPTY only when drained, nothing acknowledged lost, order for sequential producers. Sequential schedules must satisfy the property outright.",
+             note=BASE_NOTE + "No universal theorem for the delivery clause yet: what is proved about every schedule is C23_partial (lease discipline); the positive clause of C22 rests on the correspondence + oracle on sequential "
+             "schedules. Raft is assumed (one ordered log, node 1 leader); tokio and octopii are stand-ins; tasks switch only at the named points; no crash/restart, fixed membership.",
+             tech="Lean 4 small-step model + counterexample by kernel evaluation + schedule-for-schedule differential correspondence on the real code + oracle", ref="§6 C22"),
+ "C23": dict(text="Partial: the property is FALSE of the code (open finding staleLeaseWrite). Same model as C22. Theorems, for EVERY schedule (any cluster size, threshold, topics, any sequence of spawns, task steps, per-node "
+             "applies and lease syncs): C23_partial - a write made while the node's lease set is current (nothing applied on the node since its last lease refresh, key still leased) goes to a segment the node's applied "
+             "metadata has open and assigns to that node (invariant: metadata has one entry per topic; a lease set refreshed at the current applied index is exactly what the metadata prescribes); "
+             "C23_violation_needs_outdated_leases (contrapositive: every violating write happened in the window between a lease refresh and the write in which the node applied a log entry); C23_counterexample (kernel "
+             "evaluation): task 1 passes the lease check, task 2's rollover is applied on the node, task 1 writes into the sealed segment - replayed on the real code on every run. Correspondence as for C22; oracle on "
+             "every `written` event: the executing node's applied metadata at that moment.",
+             note=BASE_NOTE + "Raft is assumed (one ordered log, node 1 leader); tokio and octopii are stand-ins; a task switches only at the named points, so interleavings inside bucket.rs between two points are not explored "
+             "(the real runtime is multi-threaded). No repair committed: closing the window needs fencing at the storage layer (re-validating the lease under the key lock against applied metadata), a design change.",
+             tech="Lean 4 proof (inductive invariant over scheduler actions; frame lemma for all 15 task states) + counterexample by kernel evaluation + schedule-for-schedule differential correspondence on the real code + oracle", ref="§6 C23"),
 }
 NOT_APPLICABLE = {
  "C19": "statement about the vendored openraft core + QUIC transport + tokio runtime, none of which can be built or run offline here (tokio, quinn, rustls, futures absent from the registry); a free-standing Raft proof would be tied to nothing (DESIGN.md §6 C19)",
